@@ -1,0 +1,28 @@
+//! Hook for the deterministic simulator in /verif. Compiled only with
+//! `--cfg rumqtt_verif`. A thread-local connector, when installed, replaces
+//! the TCP connect of both event loops with an in-memory transport; on
+//! threads without a connector nothing changes.
+
+use std::cell::RefCell;
+use std::future::Future;
+use std::io;
+use std::pin::Pin;
+
+use crate::framed::AsyncReadWrite;
+
+pub type Stream = Box<dyn AsyncReadWrite>;
+pub type ConnectFuture = Pin<Box<dyn Future<Output = io::Result<Stream>>>>;
+pub type Connector = Box<dyn FnMut(&str) -> ConnectFuture>;
+
+thread_local! {
+    static CONNECTOR: RefCell<Option<Connector>> = const { RefCell::new(None) };
+}
+
+pub fn set_connector(c: Option<Connector>) {
+    CONNECTOR.with(|cell| *cell.borrow_mut() = c);
+}
+
+/// `None` when no connector is installed on this thread.
+pub(crate) fn connect(client_id: &str) -> Option<ConnectFuture> {
+    CONNECTOR.with(|cell| cell.borrow_mut().as_mut().map(|c| c(client_id)))
+}
